@@ -247,7 +247,14 @@ impl<R: Rng + Send> Multiplexor<R> {
                 datagram_tx,
                 bnd_request_tx,
                 keepalive_interval: options.keepalive_interval,
-                keepalive_timeout: options.keepalive_timeout,
+                // The timeout is at least the interval, whichever was set first
+                keepalive_timeout: if options.keepalive_interval.is_some()
+                    && options.keepalive_timeout.is_some()
+                {
+                    options.keepalive_timeout.max(options.keepalive_interval)
+                } else {
+                    options.keepalive_timeout
+                },
             },
             dropped_flows_rx,
             tx_msg_rx,
